@@ -232,26 +232,32 @@ func formatFloat(f float64, bitSize int) string {
 }
 
 func writeEscapeStr(sb *strings.Builder, str string) {
+	// An empty string, or one that starts like a number (digit, sign or dot),
+	// cannot be written bare: it would be read back as nothing or as a number.
+	needQuote := str == "" || isNumber(str[0]) || str[0] == '-' || str[0] == '+' || str[0] == '.'
 	for _, v := range []byte(str) {
 		if !isAllowedInUnquotedString(v) {
-			// need quote
-			dc := strings.Count(str, `"`)
-			sc := strings.Count(str, `'`)
-			if dc > sc {
-				sb.WriteString("'")
-				if _, err := strings.NewReplacer(`'`, `\'`, `\`, `\\`).WriteString(sb, str); err != nil {
-					panic(err)
-				}
-				sb.WriteString("'")
-			} else {
-				sb.WriteString(`"`)
-				if _, err := strings.NewReplacer(`"`, `\"`, `\`, `\\`).WriteString(sb, str); err != nil {
-					panic(err)
-				}
-				sb.WriteString(`"`)
-			}
-			return
+			needQuote = true
+			break
 		}
 	}
-	sb.WriteString(str)
+	if !needQuote {
+		sb.WriteString(str)
+		return
+	}
+	dc := strings.Count(str, `"`)
+	sc := strings.Count(str, `'`)
+	if dc > sc {
+		sb.WriteString("'")
+		if _, err := strings.NewReplacer(`'`, `\'`, `\`, `\\`).WriteString(sb, str); err != nil {
+			panic(err)
+		}
+		sb.WriteString("'")
+	} else {
+		sb.WriteString(`"`)
+		if _, err := strings.NewReplacer(`"`, `\"`, `\`, `\\`).WriteString(sb, str); err != nil {
+			panic(err)
+		}
+		sb.WriteString(`"`)
+	}
 }
